@@ -10,6 +10,10 @@ property (python, no model) and (b) implementation against the Coq model (Check/
   walk  : real directory trees given as DIRECTORY arguments (absolute, trailing separator, ".", relative; prefix = root,
           root + "/", none) to FilterIgnoredPaths / Lint / the binary; the names of the argument and of the directories above
           it come from the pattern alphabet; the model walks the tree itself (Model/Discover.v walk + Model/ExcludeWalk.v)
+  lsp   : the language server (overlay test in package lsp): ignoreURI / getFilteredModules / uri.ToPath, documents opened and
+          linted, workspaces loaded from real trees, for percent-encoded URIs of both client kinds; patterns in plain form
+Round 3: the names of every layer include characters that are spelled differently as plain path, below an absolute directory and
+in a file:// URI (space, %, #, ?, +, non-ASCII); URI names are percent-encoded as a client spells them.
 The glob engine is an oracle: its answers are tabulated by the harness straight from gobwas/glob."""
 import collections, json, os, re
 from concurrent.futures import ThreadPoolExecutor
@@ -943,7 +947,8 @@ def run(ctx):
                                + sum(1 for c in walks if not c.get('err') and 0 < c['files_scanned'] < len(walk_expected(c))),
         'rule': 'pat: every token pattern (<= 3 tokens exhaustive, 4 tokens %s) over {a, b.rego, *, **, ?, /, [ab]} plus odd and malformed '
                 'ones, each against %d files in %d (prefix, spelling) shapes on both matchers; non-trivial = the pattern excludes some but '
-                'not all of the 340 relative paths. small: pattern lists with distinct kept sets strictly between none and all. lint: runs '
+                'not all of the 340 relative paths; plus the shape group "special" (36 paths over names with space, %%, #, ?, +, non-ASCII letters, '
+                'plain / below absolute directories / percent-encoded below file:// prefixes) with the patterns naming them. small: pattern lists with distinct kept sets strictly between none and all. lint: runs '
                 'where some file is dropped or some rule is silenced in some but not all files'
                 % ('exhaustive' if ctx.tier == 'thorough' else 'sampled', nfiles, len(shapes)),
         'patterns': len(pats), 'patterns_nontrivial': nontrivial, 'distinct_behaviours_on_340_paths': len(behaviours),
